@@ -122,9 +122,10 @@ CmdLine(e) ==
          ELSE ExtCancelBody /\ Ok /\ UNCHANGED aux
     [] c[1] = "advance" ->
          IF ~(Live /\ Quiescent /\ wake # {}) THEN Fail("advance_when_model_not_quiescent_or_no_timer")
-         ELSE /\ Advance
-              /\ verdict' = IF now' # Tr.now0 + c[2] THEN "advance_target_differs" ELSE "ok"
-              /\ l' = (IF verdict' = "ok" THEN l + 1 ELSE l) /\ UNCHANGED <<tid, aux>>
+         \* the driver names its target: the next timer, or a later moment (the clock then stops at each timer on the way,
+         \* like inside a sleep window)
+         ELSE IF Tr.now0 + c[2] < NextTimerAt THEN Fail("advance_target_before_next_timer")
+         ELSE Advance /\ Ok /\ sleepTo' = Tr.now0 + c[2] /\ UNCHANGED <<tw, freezeTo>>
     [] OTHER -> Fail("unsupported:" \o c[1])
 
 OutcomeLine(e) ==
